@@ -195,8 +195,28 @@ def sanctioned_worker_exits(F, sp):
         src = w.call_at(v.key) if v.kind == 'call' else None
         if src is None and v.kind == 'local':
             ds = [d for d in w.defs.get(v.key, []) if d[1] == 'call']
-            if len(ds) == 1:
+            if len(ds) == 1 and len(w.defs.get(v.key, [])) == 1:
                 src = w.call_at(ds[0][0])
+            else:
+                # a queue variable that is re-filled in place (`pending = broker.pop(); if pending.is_empty()`):
+                # the definition that reaches this test without another one in between
+                alld = [d for d in w.defs.get(v.key, []) if d[1] == 'call' or not d[2]['lhs']['p']]
+                for d in alld:
+                    if d[1] == 'call':
+                        dc, after = w.call_at(d[0]), [w.call_at(d[0]).target]
+                    else:
+                        rv = d[2]['rv']
+                        dv = w.val(rv['op']) if rv['k'] == 'use' else None
+                        dc = w.call_at(dv.key) if dv is not None and dv.kind == 'call' and not dv.projs else None
+                        after = [d[0]]
+                    if dc is None or after[0] is None or not w.dominates(d[0], c.bb):
+                        continue
+                    if d[0] == c.bb and d[1] != 'call':
+                        src = dc          # assigned in the very block that tests it
+                        continue
+                    between = w.reach(after, cut_blocks=[c.bb])
+                    if not any(x[0] in between for x in alld if x is not d):
+                        src = dc
         import roles
         if src is not None and src in roles.calls_role(F, w, 'pop'):
             out.append(('no-more-work', w.branch(c, True)))
